@@ -32,6 +32,18 @@ VARIANTS = [
     B("time-match-slave-const", "                    slave_signal = self.signal_by_index(s)\n", "                    slave_signal = self.signal_by_index(1)\n", "R-LOOPVAR"),
     B("time-match-guard-eq", "                if s != self.master_index:\n                    slave_signal = self.signal_by_index(s)", "                if s == self.master_index:\n                    slave_signal = self.signal_by_index(s)", "R-MASTER"),
     B("response-spectra-first-only", "            self.signal_by_index(i).generate_response_spectrum()\n", "            self.signal_by_index(0).generate_response_spectrum()\n", "R-LOOPVAR"),
+    # lag search structure
+    B("lag-skip-on-small-residual", "                    min_ind = 0\n                    if verbose:", "                    min_ind = 0\n                    if min_diff < 1e-8:\n                        continue\n                    if verbose:", "R-LAGSEARCH"),
+    B("lag-sign-swapped", "                        min_ind = i + 0\n", "                        min_ind = -i\n", "R-LAGSEARCH"),
+    B("lag-second-loop-same-direction", "                    squares = (bm[i:-steps + i] - om[0:-steps]) ** 2\n", "                    squares = (om[i:-steps + i] - bm[0:-steps]) ** 2\n", "R-LAGSEARCH"),
+    B("lag-short-range", "                # Check base values lags other values\n                for i in range(steps):", "                # Check base values lags other values\n                for i in range(steps - 1):", "R-LAGSEARCH"),
+    B("lag-window-off-by-one", "                    squares = (om[i:-steps + i] - bm[0:-steps]) ** 2\n", "                    squares = (om[i + 1:-steps + i] - bm[1:-steps]) ** 2\n", "R-LAGSEARCH"),
+    B("lag-break-after-first-direction", "                # Check base values lags other values\n", "                if min_diff == 0.0:\n                    continue\n", "R-LAGSEARCH"),
+    T("lag-plain-index", "                        min_ind = i + 0\n", "                        min_ind = i\n"),
+    T("lag-window-rewritten", "                    squares = (om[i:-steps + i] - bm[0:-steps]) ** 2\n", "                    squares = (om[i:i - steps] - bm[:-steps]) ** 2\n"),
+    T("lag-residual-order", "                    squares = (bm[i:-steps + i] - om[0:-steps]) ** 2\n", "                    squares = (om[0:-steps] - bm[i:-steps + i]) ** 2\n"),
+    T("lag-zero-test-first", "                if min_ind < 0:  # pad with initial value\n                    m_temp = [om[0]] * abs(min_ind) + list(om[:min_ind])\n                elif min_ind > 0:  # pad with final value\n                    m_temp = list(om[min_ind:]) + [om[-1]] * abs(min_ind)\n                else:\n                    continue\n",
+      "                if min_ind == 0:\n                    continue\n                if min_ind < 0:  # pad with initial value\n                    m_temp = [om[0]] * abs(min_ind) + list(om[:min_ind])\n                else:\n                    m_temp = list(om[min_ind:]) + [om[-1]] * abs(min_ind)\n"),
     # twins
     T("combo-reordered", COMBO, "    combo = np.sin(off_rad) * acc_sig_we.values + np.cos(off_rad) * acc_sig_ns.values\n"),
     T("deg2rad", "    off_rad = np.radians(angle)\n", "    off_rad = np.deg2rad(angle)\n"),
